@@ -16,6 +16,7 @@ import itertools
 import json
 import time
 
+import zlib
 import common
 import pyfacts
 from gens import optables
@@ -780,6 +781,30 @@ def rand_inserts(rng, kind, delegates, homogeneous, nmax=5):
 
 # ---------------------------------------------------------------- comparison
 
+def tighten(text, symbols):
+    """drop the single blanks of `a b` where `a`'s last and `b`'s first character are of different kinds (word
+    character vs punctuation) and no operator symbol, number, `$name` or `name(` could form across the seam"""
+    toks = text.split(' ')
+    if any(t == '' for t in toks):
+        return text
+    word = lambda ch: ch.isalnum() or ch == '_'          # noqa: E731
+    out = toks[0]
+    for t in toks[1:]:
+        a, b = out[-1], t[0]
+        glue = word(a) != word(b) and a not in '\'"`' and b not in '\'"`'
+        if glue and not word(b):
+            # left is a word / number / $name, right punctuation: `1.` + digit, `f(` (a call token), `$x(`
+            if b in '.(' or any((a + b) in s for s in symbols):
+                glue = False
+        if glue and not word(a):
+            # left punctuation, right a word: `$` + name, `.5`, an operator symbol that continues into the word
+            tail = out[-3:]
+            if a in '$.' and b.isdigit() or a == '$' or any(s.startswith(tail[-k:] + b) for s in symbols for k in (1, 2, 3) if len(tail) >= k and s != tail[-k:]):
+                glue = False
+        out += ('' if glue else ' ') + t
+    return out
+
+
 class Batch:
     """collects texts for one engine, runs real parser + oracle, then one model request"""
 
@@ -800,7 +825,13 @@ class Batch:
 
     def add_tree(self, tree, family):
         """a tree that satisfies WF by construction: its spelling must parse to exactly that tree"""
-        self.add(render(self.oracle, tree, self.eng.cap['table'].name_value_op or '=>'), family, expect=tree)
+        text = render(self.oracle, tree, self.eng.cap['table'].name_value_op or '=>')
+        self.add(text, family, expect=tree)
+        # blanks between tokens are irrelevant (C02.whitespace_irrelevant): the same tree is dictated for the spelling
+        # with the blanks removed wherever two neighbouring tokens cannot run into one another
+        tight = tighten(text, [s for s in self.oracle.t])
+        if tight != text and zlib.crc32(text.encode('utf8', 'replace')) % 2 == 0:
+            self.add(tight, family + '-tight', expect=tree)
 
     def add(self, text, family, expect=None):
         if text in self.seen:
